@@ -133,20 +133,34 @@ func runFlavour(c *vf.Ctx, bin string, fl flavour) *env {
 	fmt.Printf("[%s] server + fixture + route table ready after %.1fs\n", e.tag(), time.Since(t0).Seconds())
 	rnd := c.Rand(uint64(100 + fl.Worker))
 
-	// Phase A: every route with every insufficient credential
-	order := rnd.Perm(len(e.routes))
+	// Phase A: every route with every insufficient credential, in a seed-determined order
+	// (DELETE routes last: what they remove is what other requests aim at)
+	var order []int
+	perm := rnd.Perm(len(e.routes))
+	for _, i := range perm {
+		if e.routes[i].Method != "DELETE" {
+			order = append(order, i)
+		}
+	}
+	for _, i := range perm {
+		if e.routes[i].Method == "DELETE" {
+			order = append(order, i)
+		}
+	}
 	for n, i := range order {
-		if !e.s.Alive() {
-			c.Violation("server-died:"+e.tag(), "the server process died during the sweep: "+trunc(e.s.StdoutTail(600), 600), map[string]any{"flavour": e.tag(), "kind": "crash"})
+		if !e.ensureAlive("phase A before "+e.routes[i].key()) || e.tooMany() {
 			return e
 		}
 		rt := e.routes[i]
 		e.runInsufficient(batch{Key: rt.key(), Route: rt, Need: routeNeed(rt), No: n,
 			Make: func(t target) request { return specFor(rt, t) }}, rnd)
 	}
+	if !e.ensureAlive("end of phase A") {
+		return e
+	}
 	fmt.Printf("[%s] phase A (routes x insufficient credentials) done after %.1fs\n", e.tag(), time.Since(t0).Seconds())
 
-	if !fl.LogKeeper {
+	if !fl.LogKeeper && !e.tooMany() {
 		// Phase Q: statement kinds of the query endpoint
 		e.runStatements(rnd, len(e.routes))
 		fmt.Printf("[%s] phase Q (statement kinds) done after %.1fs\n", e.tag(), time.Since(t0).Seconds())
@@ -160,6 +174,65 @@ func runFlavour(c *vf.Ctx, bin string, fl flavour) *env {
 	e.runSufficient()
 	fmt.Printf("[%s] phase B (sufficient credentials) done after %.1fs\n", e.tag(), time.Since(t0).Seconds())
 	return e
+}
+
+// ensureAlive restarts a dead server. A death while every request so far was rejected is
+// a violation (something unauthenticated killed it, or it dies by itself); after an escape
+// (a request that was wrongly served, e.g. a log stream deleted under pending records) the
+// death is a consequence of that reported escape and only counted.
+func (e *env) ensureAlive(where string) bool {
+	if e.s.Alive() {
+		return true
+	}
+	if !e.restartIfDead(where) {
+		return false
+	}
+	e.repair()
+	return e.s.Alive()
+}
+
+// restartIfDead reports a dead server (see ensureAlive) and starts it again.
+func (e *env) restartIfDead(where string) bool {
+	if e.s.Alive() {
+		return true
+	}
+	c := e.c
+	tail := trunc(e.s.StdoutTail(700), 700)
+	esc := e.dirty // batches in which a wrongly served request changed the state
+	if esc == 0 {
+		c.Violation("server-died:"+e.tag(), "the server process died although every request so far was rejected ("+where+"): "+tail,
+			map[string]any{"flavour": e.tag(), "kind": "crash", "where": where})
+	} else {
+		c.Inconclusive("server-died-after-escaped-requests:"+e.tag(), 1)
+		fmt.Printf("INCONCLUSIVE property=C19 [%s] server died (%s) after %d batches with wrongly served, state-changing requests: %s\n", e.tag(), where, esc, trunc(tail, 200))
+	}
+	e.restarts++
+	if e.restarts > 5 {
+		c.Broken("[%s] server died more than 5 times", e.tag())
+		return false
+	}
+	if err := e.s.Start(); err != nil {
+		c.Broken("[%s] restart: %v", e.tag(), err)
+		return false
+	}
+	if err := e.s.WaitReady(90 * time.Second); err != nil {
+		c.Broken("[%s] restart: %v", e.tag(), err)
+		return false
+	}
+	return true
+}
+
+// tooMany bounds the run when a change breaks authentication wholesale.
+func (e *env) tooMany() bool {
+	if e.c.Violations() >= 40 {
+		if !e.capped {
+			e.capped = true
+			e.c.Inconclusive("sweep-cut-short-after-40-violations:"+e.tag(), 1)
+			fmt.Printf("[%s] 40 violations reported: the rest of the sweep is skipped\n", e.tag())
+		}
+		return true
+	}
+	return false
 }
 
 // runSufficient: for every route the administrator (and the non-admin classes the route's
@@ -176,7 +249,19 @@ func (e *env) runSufficient() {
 			return
 		}
 	}
-	for n, rt := range e.routes {
+	// DELETE routes last, deeper paths first (a log stream before its repository)
+	routes := append([]Route{}, e.routes...)
+	sort.SliceStable(routes, func(i, j int) bool {
+		di, dj := routes[i].Method == "DELETE", routes[j].Method == "DELETE"
+		if di != dj {
+			return dj
+		}
+		if di && dj {
+			return len(routes[i].Pattern) > len(routes[j].Pattern)
+		}
+		return false
+	})
+	for n, rt := range routes {
 		if e.fl.LogKeeper && tsTable[rt.key()] {
 			continue
 		}
@@ -223,8 +308,9 @@ func (e *env) runSufficient() {
 			}
 		}
 		if !e.s.Alive() {
-			c.Violation("server-died:"+e.tag(), "the server process died during the administrator sweep at "+rt.key()+": "+trunc(e.s.StdoutTail(600), 600),
-				map[string]any{"flavour": e.tag(), "kind": "crash", "case": rt.key()})
+			// requests of sufficient users really act; a crash they cause is not this property's concern
+			c.Inconclusive("server-died-during-sufficient-sweep:"+e.tag()+":"+rt.key(), 1)
+			fmt.Printf("INCONCLUSIVE property=C19 [%s] server died during the sufficient-credentials sweep at %s: %s\n", e.tag(), rt.key(), trunc(e.s.StdoutTail(300), 300))
 			return
 		}
 	}
